@@ -31,6 +31,7 @@ ASSUMPTIONS = ['hierarchies without repeated ancestors (tree-shaped), as the pro
 
 ATTRS = ['a', 'b', 'c', 'm', 'n']
 BUILTIN_BASES = ['object', 'dict', 'list', 'Exception']
+DUNDERS = ['__init__', '__str__', '__repr__']
 MODS = ['m0', 'm1', 'p.m2', 'p.m3']
 
 
@@ -52,7 +53,10 @@ def hierarchy_strategy():
             nb = draw(st.integers(0, 3)) if i else 0
             cands = list(range(i))
             for _ in range(nb):
-                ok = [j for j in cands if not (anc[j] & used) and depth[j] < 4]
+                # no repeated ancestors: source ancestors are disjoint, and at most one base brings a builtin class other
+                # than object (two would repeat it, e.g. C(A(list), B(list)), or conflict in layout)
+                ok = [j for j in cands if not (anc[j] & used) and depth[j] < 4
+                      and not (classes[j]['real_builtin'] and any(classes[b]['real_builtin'] for b in bases))]
                 if not ok:
                     break
                 j = draw(st.sampled_from(ok))
@@ -61,15 +65,26 @@ def hierarchy_strategy():
             bbase = None
             if draw(st.integers(0, 4)) == 0 and not any(classes[j]['bbase_chain'] for j in bases):
                 bbase = draw(st.sampled_from(BUILTIN_BASES))
+            elif draw(st.integers(0, 5)) == 0 and not any(classes[j]['real_builtin'] for j in bases):
+                bbase = 'object'        # explicit object next to bases that already end in it
             members = []
             names = draw(st.lists(st.sampled_from(ATTRS), min_size=1, max_size=4, unique=True))
             for nm in names:
                 kind = draw(st.sampled_from(['attr', 'attr', 'method', 'method', 'method', 'property', 'classmethod', 'staticmethod', 'descriptor']))
                 assigns = draw(st.lists(st.sampled_from(ATTRS + ['x', 'y']), max_size=2, unique=True)) if kind == 'method' else []
-                members.append({'name': nm, 'kind': kind, 'assigns': assigns})
+                # a method may first assign through another receiver (tmp.x = ...) before it assigns through self
+                foreign = kind == 'method' and bool(assigns) and draw(st.integers(0, 3)) == 0
+                members.append({'name': nm, 'kind': kind, 'assigns': assigns, 'foreign': foreign})
+            if draw(st.integers(0, 3)) == 0:
+                # object-level special methods: builtin bases inherit them from object (which comes LAST in the MRO)
+                for nm in draw(st.lists(st.sampled_from(DUNDERS), min_size=1, max_size=2, unique=True)):
+                    members.append({'name': nm, 'kind': 'method', 'assigns': draw(st.lists(st.sampled_from(ATTRS + ['x', 'y']), max_size=2, unique=True)),
+                                    'foreign': False})
             anc[i] = {i} | used
             depth[i] = 1 + max([depth[j] for j in bases] or [0])
             classes.append({'name': 'C%d' % i, 'mod': mod, 'bases': bases, 'bbase': bbase, 'members': members,
+                            'bbase_first': bool(bbase) and bbase != 'object' and draw(st.booleans()),
+                            'real_builtin': bbase not in (None, 'object') or any(classes[j]['real_builtin'] for j in bases),
                             'bbase_chain': bool(bbase) or any(classes[j]['bbase_chain'] for j in bases)})
         forms = draw(st.lists(st.integers(0, 3), min_size=n * 4, max_size=n * 4))
         probe_forms = draw(st.lists(st.integers(0, 3), min_size=n, max_size=n))
@@ -121,7 +136,10 @@ def render(h):
                     imports[mod].append(line)
                 bexprs.append(expr)
         if c['bbase']:
-            bexprs.append(c['bbase'])
+            if c.get('bbase_first'):
+                bexprs.insert(0, c['bbase'])        # class C(dict, Source): the MRO is C, dict, Source, object
+            else:
+                bexprs.append(c['bbase'])
         lines = ['class %s%s:' % (c['name'], '(%s)' % ', '.join(bexprs) if bexprs else '')]
         for mb in c['members']:
             k = mb['kind']
@@ -130,6 +148,8 @@ def render(h):
                 lines.append('    %s = %d' % (nm, ci))
             elif k == 'method':
                 lines.append('    def %s(self):' % nm)
+                if mb.get('foreign'):
+                    lines += ['        tmp = Desc(None)', '        tmp.other_%s = self' % nm]
                 for a in mb['assigns']:
                     lines.append('        self.%s = %d' % (a, ci))
                 lines.append('        return None')
@@ -160,6 +180,7 @@ import sys, json, importlib
 root = sys.argv[1]
 sys.path.insert(0, root)
 spec = json.load(open(sys.argv[2]))
+DUNDERS = ['__init__', '__str__', '__repr__']
 out = {}
 for c in spec:
     mod = importlib.import_module(c['mod'])
@@ -173,6 +194,10 @@ for c in spec:
         for n in vars(k):
             if not n.startswith('__') and n not in names:
                 names[n] = (k.__module__, k.__name__)
+    for n in DUNDERS:
+        owners = [k for k in mro if n in vars(k)]
+        if owners and owners[0].__module__ != 'builtins':
+            names[n] = (owners[0].__module__, owners[0].__name__)
     info['class_names'] = names
     try:
         obj = K()
@@ -218,6 +243,11 @@ def oracle_inprocess(root, spec):
                 for n in vars(k):
                     if not n.startswith('__') and n not in cn:
                         cn[n] = (k.__module__, k.__name__)
+            for n in DUNDERS:
+                # special methods: the first class of the FULL MRO (builtin classes included) that defines the name
+                owners = [k for k in mro if n in vars(k)]
+                if owners and owners[0].__module__ != 'builtins':
+                    cn[n] = (owners[0].__module__, owners[0].__name__)
             info['class_names'] = cn
             try:
                 obj = K()
@@ -262,7 +292,8 @@ def positions(files):
                         col = lines[st.lineno - 1].index('def ') + 4
                         defs[(rel, node.name, st.name)] = (st.lineno, col)
                         for n in ast.walk(st):
-                            if isinstance(n, ast.Assign) and isinstance(n.targets[0], ast.Attribute):
+                            if isinstance(n, ast.Assign) and isinstance(n.targets[0], ast.Attribute) \
+                                    and isinstance(n.targets[0].value, ast.Name) and n.targets[0].value.id == 'self':
                                 a = n.targets[0]
                                 assigns.setdefault((rel, node.name, st.name), []).append((a.attr, (a.lineno, a.col_offset)))
     return defs, assigns
